@@ -340,6 +340,11 @@ class OperandNode(ASTNode):
             value = value.replace('""', r'\"')
             return f'"{value}"'
 
+        elif self.subtype == self.token.NUMBER:
+            # python does not read an integer with leading zeros: 007
+            value = self.value.lstrip('0')
+            return value if value[:1].isdigit() else '0' + value
+
         else:
             return self.value
 
